@@ -57,6 +57,8 @@ struct World {
   std::deque<Sched> sched;
   int64_t sched_last = 0;
   int eintr = 0;
+  int sigint_in = 0;      // an asynchronous "signal" whose handler calls events_interrupt() arrives during the n-th poll from now
+  int sigint_eintr = 0;   // ... and that poll returns -1/EINTR (1) or its normal result (0)
   int64_t jit_max = 0;
   uint64_t jit_state = 0;
   // clock bookkeeping
@@ -161,7 +163,24 @@ extern "C" int __wrap_poll(struct pollfd *fds, nfds_t n, int timeout) {
                    " ms (earliest deadline - first clock read of this run, rounded up)");
     }
   }
-  if (w.eintr > 0) {
+  bool sig_now = false;
+  if (w.sigint_in > 0 && --w.sigint_in == 0) {
+    // a signal handler runs while the loop sits in poll and requests an interrupt
+    sig_now = true;
+    shim_interrupt();
+    w.cls.insert("interrupt-from-signal-during-poll");
+    if (w.in_run) {
+      if (!w.stop_seen)
+        for (auto &p : w.insts)
+          if (p->state == PENDING) w.stop_with_pending = true;
+      w.stop_seen = true;  // nothing may be dispatched any more in this events_run
+    }
+    if (w.sigint_eintr) {
+      errno = EINTR;
+      return -1;
+    }
+  }
+  if (w.eintr > 0 && !sig_now) {
     w.eintr--;
     w.cls.insert("poll-eintr");
     errno = EINTR;
@@ -543,9 +562,9 @@ static void run_once(int spin_n) {
     rc = shim_events_run();
   w.in_run = false;
   if (spin_n <= 0) {
-    if (w.runnable_at_entry && w.cb_in_run == 0)
+    if (w.runnable_at_entry && w.cb_in_run == 0 && !w.stop_seen)
       w.fail(5, "runnable-but-nothing-ran", "events_run started with something runnable and returned without running a callback");
-    if (w.must_run && w.cb_in_run == 0)
+    if (w.must_run && w.cb_in_run == 0 && !w.stop_seen)
       w.fail(5, "woke-but-nothing-ran", "events_run woke up because a descriptor became ready or a timer expired but returned without running the callback");
   }
   if (rc != w.expect_rc)
@@ -606,7 +625,10 @@ static Outcome run_case(const Case &c, int oracle) {
       w.cls.insert("scheduled-readiness");
     } else if (op.k == "eintr")
       w.eintr = (int)std::min<int64_t>(std::max<int64_t>(A(0), 0), 3);
-    else if (op.k == "jitter") {
+    else if (op.k == "sigint") {
+      w.sigint_in = (int)std::min<int64_t>(std::max<int64_t>(A(0), 1), 3);
+      w.sigint_eintr = (int)(A(1) & 1);
+    } else if (op.k == "jitter") {
       w.jit_max = std::min<int64_t>(std::max<int64_t>(A(0), 0), 3000);
       w.jit_state = (uint64_t)A(1);
       if (w.jit_max) w.cls.insert("clock-jitter");
@@ -617,6 +639,7 @@ static Outcome run_case(const Case &c, int oracle) {
     w.draining = true;
     w.sched.clear();
     w.eintr = 0;
+    w.sigint_in = 0;
     for (int f = 0; f < MAXFD; f++) w.flags[f] = POLLIN | POLLOUT;
     int64_t far = 0;
     for (auto &p : w.insts)
@@ -705,7 +728,7 @@ static rc::Gen<Case> gen_prog(int tier) {
     if (*range<int>(0, 2) == 0) c.push_back(Op("jitter", {*rc::gen::elementOf(std::vector<int64_t>{1, 50, 999, 3000}), *rc::gen::arbitrary<int>()}));
     int steps = *range<int>(5, tier ? 120 : 60);
     for (int s = 0; s < steps; s++) {
-      int k = *rc::gen::weightedElement<int>({{8, 0}, {2, 1}, {1, 2}, {5, 3}, {2, 4}, {7, 5}, {1, 6}, {2, 7}, {1, 8}});
+      int k = *rc::gen::weightedElement<int>({{8, 0}, {2, 1}, {1, 2}, {5, 3}, {2, 4}, {7, 5}, {1, 6}, {2, 7}, {1, 8}, {1, 9}});
       switch (k) {
       case 0:
         c.push_back(Op("reg", {*range<int>(0, ntpl - 1)}));
@@ -735,6 +758,9 @@ static rc::Gen<Case> gen_prog(int tier) {
         break;
       case 8:
         c.push_back(Op("eintr", {*range<int>(1, 2)}));
+        break;
+      case 9:
+        c.push_back(Op("sigint", {*range<int>(1, 2), *range<int>(0, 1)}));
         break;
       }
     }
